@@ -126,6 +126,58 @@ def d_static_field():
         [("items", ("list", ("dict", [("k", ("uint", 8))]), [2]))], None
 
 
+def d_leading_length_bytes():
+    d = B.dop("ll", dct=B.leading_length_type(DataType.A_BYTEFIELD, 8), dt=DataType.A_BYTEFIELD)
+    return B.request([B.coded_const("sid", 0x22, 0), B.value_param("blob", d), B.value_param("tail", B.dop("u8", 8))]), \
+        [("blob", ("bytes", 0, 3)), ("tail", ("uint", 8))], None
+
+
+def d_leading_length_text():
+    d = B.dop("lt", dct=B.leading_length_type(DataType.A_UTF8STRING, 8), dt=DataType.A_UTF8STRING)
+    return B.request([B.coded_const("sid", 0x22, 0), B.value_param("text", d), B.coded_const("end", 0x55)]), \
+        [("text", ("str", ["", "a", "ab", "\u00e9", "\u20ac"]))], None
+
+
+def d_dynamic_length_field():
+    item = B.structure("item", [B.value_param("k", B.dop("u8", 8))])
+    f = B.dynamic_length_field("items", item, B.dop("count", 8), offset=1)
+    return B.request([B.coded_const("sid", 0x22, 0), B.value_param("items", f), B.coded_const("end", 0x55)]), \
+        [("items", ("list", ("dict", [("k", ("uint", 8))]), [0, 1, 2]))], None
+
+
+def d_dtc():
+    d = B.dtc_dop("dtcs", [B.dtc(0x1234, "P1234"), B.dtc(0x0001, "P0001")])
+    return B.response([B.coded_const("sid", 0x59, 0), B.value_param("code", d)]), [("code", ("uint", 16))], None
+
+
+def d_multiplexer():
+    sa = B.structure("sa", [B.value_param("a", B.dop("u8", 8))])
+    sb = B.structure("sb", [B.value_param("b", B.dop("u16", 16))])
+    m = B.mux("mx", B.dop("key", 8), [("c1", 1, 1, sa), ("c2", 2, 5, sb)])
+    return B.request([B.coded_const("sid", 0x22, 0), B.value_param("m", m)]), \
+        [("m", ("oneof", [("tuple", "c1", ("dict", [("a", ("uint", 8))])),
+                          ("tuple", "c2", ("dict", [("b", ("uint", 16))]))]))], None
+
+
+def _the_table():
+    sa = B.structure("sa", [B.value_param("a", B.dop("u8", 8))])
+    return B.table("tbl", B.dop("key", 8), [("row_a", 1, sa, None), ("row_b", 2, None, B.dop("u16", 16))])
+
+
+def d_table_key_struct():
+    t = _the_table()
+    k = B.table_key("tk", t)
+    return B.request([B.coded_const("sid", 0x22, 0), k, B.table_struct("ts", k)]), \
+        [("ts", ("oneof", [("tuple", "row_a", ("dict", [("a", ("uint", 8))])), ("tuple", "row_b", ("uint", 16))]))], None
+
+
+def d_table_fixed_row():
+    t = _the_table()
+    k = B.table_key("tk", t, fixed_row=t.table_rows.row_b)
+    return B.request([B.coded_const("sid", 0x22, 0), k, B.table_struct("ts", k)]), \
+        [("ts", ("oneof", [("tuple", "row_b", ("uint", 16))]))], None
+
+
 def d_linear_limited():
     d = B.dop("lim", dct=B.std_type(8), compu_method=B.linear(0, 1, DataType.A_UINT32, DataType.A_UINT32, 0, 100))
     return B.request([B.coded_const("sid", 0x2E, 0), B.value_param("pct", d, 1)]), [("pct", ("uint", 8))], None
@@ -154,6 +206,9 @@ DESCRIPTIONS = {
     "minmax-unicode2-be": d_minmax_unicode_odd_offset, "minmax-unicode2-le": d_minmax_unicode_le,
     "struct-param": d_struct_param, "struct-bytesize+u8": d_struct_bytesize_then_u8,
     "end-of-pdu-field": d_end_of_pdu_field, "static-field": d_static_field,
+    "leading-length-bytes": d_leading_length_bytes, "leading-length-text": d_leading_length_text,
+    "dynamic-length-field": d_dynamic_length_field, "dtc": d_dtc, "multiplexer": d_multiplexer,
+    "table-key+struct": d_table_key_struct, "table-fixed-row": d_table_fixed_row,
 }
 
 FUNCTIONS = [Request.encode, Request.decode, Response.encode, Response.decode,
@@ -183,6 +238,10 @@ def _value(name, kind):
         return H.pick(f"val_{name}", kind[1])
     if kind[0] == "dict":
         return {n: _value(f"{name}_{n}", k) for (n, k) in kind[1]}
+    if kind[0] == "oneof":
+        return _value(name, H.pick(f"alt_{name}", kind[1]))
+    if kind[0] == "tuple":
+        return (kind[1], _value(f"{name}_{kind[1]}", kind[2]))
     if kind[0] == "list":
         count = H.pick(f"n_{name}", kind[2])
         return [_value(f"{name}{i}", kind[1]) for i in range(count)]
@@ -194,12 +253,12 @@ def _fam(tier, seed):
 
 
 @harness(props=["C01", "C02", "C03", "C04", "C05", "C08"], strength="B", family=_fam,
-         bound="20 concrete request/response descriptions built from the real parameter / DOP / diag-coded-type classes "
+         bound="27 concrete request/response descriptions built from the real parameter / DOP / diag-coded-type classes "
          "(constants, defaults, reserved bits, low-high and non-aligned values, linear compu method, request echoes, "
-         "MIN-MAX-LENGTH types with the three terminations, PHYS-CONST, SYSTEM, structures with and without BYTE-SIZE, end-of-PDU and static fields); per description every value is "
+         "MIN-MAX-LENGTH types with the three terminations, PHYS-CONST, SYSTEM, structures with and without BYTE-SIZE, end-of-PDU, static and dynamic-length fields, LEADING-LENGTH types, DTC DOP, multiplexer, table key/struct); per description every value is "
          "symbolic",
          functions=FUNCTIONS, covers=["encoded", "rejected"], assumes=["A-bitstruct", "A-lib"],
-         limits={"max_paths": 40000, "task_timeout": 1500}, use_contracts=["bcd"])
+         limits={"max_paths": 40000, "task_timeout": 1500, "sym_for_unroll": 12}, use_contracts=["bcd"])
 def roundtrip_through_the_real_stack(desc):
     """real encode then real decode of a concrete description with symbolic values: decoded values = encoded values
     (defaults and constants included), whole PDU consumed, constant prefix is a prefix of the PDU, static bit length
@@ -240,14 +299,17 @@ def roundtrip_through_the_real_stack(desc):
     try:
         back = codec.decode(bytes(pdu))
     except OdxError:
-        H.check("C01,C04:what-the-encoder-accepts-decodes", False)
+        H.check("C01,C02,C04:what-the-encoder-accepts-decodes", False)
         return
     except Exception:
         H.check("C05:only-decode-errors-escape-the-decoder", False)
         return
     for (name, kind) in specs:
         if name in values:
-            H.check("C01,C04:decoded-value-is-the-encoded-value", H.eq(back[name], values[name]))
+            got = back[name]
+            if desc == "dtc":
+                got = got.trouble_code  # DTCs decode to the DTC object carrying the trouble code
+            H.check("C01,C04:decoded-value-is-the-encoded-value", H.eq(got, values[name]))
     for p in codec.parameters:
         if isinstance(p, CodedConstParameter):
             H.check("C01:constants-decode-to-their-value", back[p.short_name] == p.coded_value)
@@ -273,9 +335,9 @@ def roundtrip_through_the_real_stack(desc):
 
 
 @harness(props=["C05"], strength="B", family=_fam,
-         bound="the same 20 concrete descriptions; the message is a symbolic byte string of 0..8 bytes",
+         bound="the same 27 concrete descriptions; the message is a symbolic byte string of 0..8 bytes",
          functions=FUNCTIONS, covers=["decoded", "rejected"], assumes=["A-bitstruct", "A-lib"],
-         limits={"max_paths": 40000, "task_timeout": 1500}, use_contracts=["bcd"])
+         limits={"max_paths": 40000, "task_timeout": 1500, "sym_for_unroll": 12}, use_contracts=["bcd"])
 def decoding_arbitrary_bytes_is_total(desc):
     """decoding any byte string with a real description returns or raises DecodeError - nothing else escapes"""
     codec, specs, trigger = DESCRIPTIONS[desc]()
@@ -316,10 +378,10 @@ def _nrc_service():
 
 @harness(props=["C17", "C06"], strength="B",
          family=lambda t, s: [{"desc": k} for k in list(DESCRIPTIONS) + ["nrc-const-service"]],
-         bound="the 20 concrete descriptions plus one service with two NRC-CONST negative responses; values and "
+         bound="the 27 concrete descriptions plus one service with two NRC-CONST negative responses; values and "
          "messages symbolic",
          functions=FUNCTIONS + [DiagService.decode_message], covers=["strict-success"],
-         assumes=["A-bitstruct", "A-lib"], limits={"max_paths": 40000, "task_timeout": 1500}, use_contracts=["bcd"],
+         assumes=["A-bitstruct", "A-lib"], limits={"max_paths": 40000, "task_timeout": 1500, "sym_for_unroll": 12}, use_contracts=["bcd"],
          crosscheck=False)
 def strict_success_implies_same_result_in_lenient_mode(desc):
     """whenever encoding / decoding succeeds in strict mode, the same call in non-strict mode returns the same result"""
